@@ -239,8 +239,50 @@ def unicode_reps():
             yield ch
 
 
+def touch_helpers(rng):
+    """what else in the library uses the codec's tables: alphabet detection and the two splitters (utils.py), the encoder
+    entry of SubmitSm.  Called between the codec cases: the codec must be unimpressed by whoever else has read its tables."""
+    from aiosmpplib import utils
+    from aiosmpplib.protocol import SubmitSm
+    for t in ('hello', 'price 5€ [x]', 'жук', 'a' * 200, '€' * 100, 'tab\there'):
+        for fn in (utils.detect_format, lambda x: utils.split_sms(x, ''), lambda x: utils.split_sms_udh(x, '', 7),
+                   lambda x: utils.split_sms(x, 'gsm0338'), lambda x: utils.split_sms_udh(x, 'ucs2', 300)):
+            try:
+                fn(t)
+            except Exception:      # noqa
+                pass
+        try:
+            m = SubmitSm(short_message=t)
+            m.set_encoding_info('gsm0338', {})
+            m.smpp_encode()
+        except Exception:      # noqa
+            pass
+
+
 def generate(rng, tier):
     thorough = tier == 'thorough'
+    # 0. the extension table and a few texts before and after the other users of the tables have run
+    for ch in sorted(spec.ALPHABET):
+        if len(spec.encode(ch)) == 2:
+            yield enc_case('strict', ch)
+    touch_helpers(rng)
+    for ch in sorted(spec.ALPHABET):
+        if len(spec.encode(ch)) == 2:
+            for m in MODES:
+                yield enc_case(m, 'a' + ch + 'b')
+    # 0b. long texts (beyond any bulk-path threshold: 1025 .. 70000 characters) with one outsider of each kind - ASCII
+    #     control characters, backtick, DEL, Latin-1, BMP, astral - at a random place, and without any
+    outsiders = ['\t', '\x01', '`', '\x7f', '\xe7', 'Ā', '中', '\U0001F600']
+    alpha0 = sorted(spec.ALPHABET - {'\x1b'})
+    for n in ((1025, 3000, 70000) if thorough else (1025, 3000)):
+        base = [rng.choice(alpha0) for _ in range(n)]
+        for m in MODES:
+            yield enc_case(m, ''.join(base))
+        for o in outsiders:
+            t = list(base)
+            t[rng.randrange(n)] = o
+            for m in MODES:
+                yield enc_case(m, ''.join(t))
     # 1. single code points, every mode
     if thorough:
         cps = range(0x110000)
